@@ -82,6 +82,30 @@ CHECKS = {
             'before/after; dict: bob\'s observations unchanged.',
             'Trusted: as C11; lexical model only: no symlinks inside the store, no mount points, case-sensitive filesystem; the recorder sees Python-level calls (os, shutil, open), which is all pymap and the mailbox module use.',
             'DESIGN.md section 6 C08'),
+    'C13': ('Lean 4 theorems (every key equals its RFC meaning, prefilter soundness, exactness, UID equivalence, algebraic laws) + differential correspondence + independent evaluator',
+            'crit_iff, C13_prefilter_sound, C13_exact, C13_uid_equiv, C13_algebra are proved in Lean for every view, key tree and message (string keys as oracles). Tie: SEARCH/UID SEARCH results of the real server '
+            'are diffed with Search.search on random mailboxes x random key trees; an independent Python evaluator of RFC 3501 6.4.4 over the stored bytes is the monitor and supplies the oracle bits; equivalent '
+            'rewritings and views with hidden expunged messages are exercised.',
+            'Trusted: Lean kernel, axioms propext/Classical.choice/Quot.sound, the harness. String matching (email package, re) is an oracle of the model; messages are plain ASCII so that "contains" is unambiguous.',
+            'DESIGN.md section 6 C13'),
+    'C18': ('Lean 4 round-trip theorems (quoted strings, modified UTF-7 for all Unicode scalar values) + L1 differential correspondence + spelling-equivalence monitor on the wire',
+            'C18_roundtrip_quoted (parse(ser v ++ rest) = (v, rest)), C18_modutf7 (decode(encode s) = s for every list of scalar values), C18_encode_ascii are proved in Lean. Tie: QuotedString/String.build/modutf7_encode/decode '
+            'vs the Wire and ModUtf7 models on hostile values. Monitors: round trips of literals, astrings, numbers, sequence sets, flags, date-times through the real parsers; an independent RFC 3501 5.1.3 encoder; whole command '
+            'programs replayed under random spellings (atom/quoted/{n}/{n+}, command-word case) must answer and leave state identically; LIST reports names that decode to the created names.',
+            'Trusted: as C13. The lenient utf-7 decoder of Python on non-canonical input is not modelled (one-sided correspondence). Parsers of numbers/sets/flags/dates have no Lean model yet (monitored only).',
+            'DESIGN.md section 6 C18'),
+    'C07': ('Lean 4 theorem that every serialised response shape is accepted by an independent strict recogniser + twin-recogniser correspondence + output monitor',
+            'C07_wellformed (every line built from atoms, String.build values and nested groups is accepted by Grammar.wf, by mutual induction with a fuel-independence lemma), C07_build_safe, C07_quoted_escape, C18_encode_ascii '
+            'are proved in Lean. Tie: the Python recogniser used as the monitor is diffed with Grammar.wf on all server outputs of the run and on mutations of them; String.build vs Wire.buildString on hostile values. Monitor: every byte '
+            'the real server writes in scenario families that echo client data (names, keywords, tags, headers through ENVELOPE/BODYSTRUCTURE, MIME shapes, error paths, SASL exchanges) on dict and maildir must be accepted.',
+            'Trusted: as C13. The mapping of each pymap response class onto the Item shape of the theorem is exercised by the monitor, not proved. Known finding D47 (BINARY fetch of undecodable part breaks off mid-line).',
+            'DESIGN.md section 6 C07'),
+    'C06': ('Lean 4 theorems over the outcome table of the command loop and termination of the modified-UTF-7 decoder model + line/message fuzzing with a watchdog',
+            'C06_answered, C06_no_serverbug, C06_tagged (for every outcome class except "other": tagged completion, continuation or BYE; never closed without BYE) and C06_modutf7_total (the decoder model does not depend on fuel = it terminates) '
+            'are proved in Lean. Tie: constructed outcome sequences (incl. five BADs) are diffed with Loop.handle; modutf7_decode runs under a watchdog on the model\'s inputs. Monitor: grammar-derived, mutated and raw command lines in three '
+            'states (IMAP) and ManageSieve, hostile stored messages x every FETCH attribute and SEARCH key on dict and maildir: every line answered, no [SERVERBUG], no close without BYE, no spin (SIGALRM), other connections still served.',
+            'Trusted: as C13. Partial by construction: the email package, re and codecs are not modelled; the command-line parser itself has no Lean model yet (C06_parse_total is not claimed). Known findings D47, D48, D49.',
+            'DESIGN.md section 6 C06'),
 }
 
 NOT_YET = 'check not built yet in this round (see DESIGN.md section 10 for the build order); nothing is claimed'
